@@ -1,1 +1,2 @@
 import SedpackModel.Hash
+import SedpackModel.Filler
